@@ -404,82 +404,113 @@ def r07_1(cx):
         t = expand_vars(fbody, fbody.def_term(0) or fbody.local_term(0))
         ok = is_call(t, r'IndexMut::index_mut$') and sf(peel(t[2][0]), 'buf') and is_agg(t[2][1], r'RangeFrom$') and sf(t[2][1][3]['start'], 'end')
         cx.report('R07.1', fbody, 'free_buffer', ok, 'free_buffer() = buf[end..]' if ok else 'free_buffer() = %s' % tstr(t, 120))
-    # fill
+    # fill: decided on the summaries of one iteration of its read loop
+    from acverif.sym import loop_rows, Sym, summarize, canon, cstr, teval, by_cstr
     f = cx.body('util::buffer::Buffer::fill')
-    rdrp = param_at(f, 2)
-    reads = f.calls(r'std::io::Read::read$')
-    okr = False
-    if len(reads) == 1:
-        ct = f.call_term(*reads[0])
-        okr = peel(ct[2][0]) == rdrp and is_free(ct[2][1], f)
-    cx.report('R07.1', f, 'fill/read', okr, 'reads into buf[end..] only' if okr else 'read target is not the free part of the buffer')
-    ends = [(bi, si, val) for bi, si, tt, val, st in f.field_stores() if sf(tt, 'end')]
-    oke = False
-    if len(ends) == 1 and reads:
-        v = ends[0][2]
-        if v[0] == 'op' and v[1] == 'Add':
-            sides = [v[2], v[3]]
-            e_side = [x for x in sides if sf(x, 'end')]
-            o_side = [x for x in sides if not sf(x, 'end')]
-            if len(e_side) == 1 and len(o_side) == 1:
-                roots = value_roots(f, o_side[0], ends[0][0], ends[0][1])
-                oke = bool(roots) and all(is_call(r, r'std::io::Read::read$') for r in roots)
-    cx.report('R07.1', f, 'fill/end', oke, 'the only store to end adds exactly the reader\'s return value' if oke else 'end is updated by %s' % [tstr(expand_vars(f, v), 120) for _, _, v in ends])
-    other = [tt for bi, si, tt, val, st in f.field_stores() if not sf(tt, 'end')]
-    cx.report('R07.1', f, 'fill/other-stores', not other, 'fill writes no other field' if not other else 'fill writes %s' % [tstr(x) for x in other])
-    # result protocol: Ok(flag) on a zero read, Ok(true) when enough is buffered; flag is false only while nothing has been read
-    rets = [(bi, f.rvalue_term(st['r'], 0, bi)) for bi, si, pl, st in f.stores() if si != 'term' and pl['l'] == 0 and not pl['pr']]
-    okrets = [t0 for _, t0 in rets if is_agg(t0, r'Result$', 'Ok')]
-    flags = [t0[3]['0'] for t0 in okrets if is_var(t0[3]['0'])]
-    ok_false_only_first = False
-    zero_edges, nonzero_edges = [], []
-    if reads:
-        for blk, sc in f.switches():
-            if sc[0] != 'bool':
+    RDR = cstr(param_at(f, 2))
+    why = dict.fromkeys(('read', 'end', 'other', 'result', 'eof'))
+    floops = f.loops()
+    if len(floops) != 1:
+        why['read'] = 'fill has %d loops (expected the one read loop)' % len(floops)
+    else:
+        h = list(floops)[0]
+        sym = Sym(cx.facts, f)
+        mods, _ = sym.loop_mods(h)
+        arr = [r for r in Sym(cx.facts, f, start=0, stop={h}).rows() if r.end == ('stop', h)]
+        flags = [l for l in mods if f.locals[l]['ty'] == 'bool' and arr and all(r.env.get(l) == ('c', 0) for r in arr)]
+        rows = [r for r in loop_rows(cx.facts, f, h) if r.end != 'diverge']
+        FL = {cstr(sym.default_local(l)): l for l in flags}
+        nz = 0
+        for r in rows:
+            rd = [canon(c) for c in r.calls(r'std::io::Read::read$')]
+            if len(rd) != 1 or cstr(rd[0][2][0]) != RDR:
+                why['read'] = '%d reads from the reader in one iteration' % len(rd)
                 continue
-            c = expand_vars(f, sc[1])
-            e = eq_zero_of_read(f, c)
-            if e is None:
+            tgt = rd[0][2][1]
+            free = (is_call(tgt, r'Buffer::free_buffer$') and cstr(tgt[2][0]) == 'self') or (is_call(tgt, r'IndexMut::index_mut$') and cstr(tgt[2][0]) == 'self.buf' and is_agg(tgt[2][1], r'RangeFrom$') and cstr(tgt[2][1][3]['start']) == 'self.end')
+            if not free:
+                why['read'] = 'the reader writes into %s (expected the free part buf[end..])' % tstr(tgt, 100)
+            N = cstr(('f', ('dc', rd[0], 'Ok'), '0'))
+            okv = r.cond(lambda c: c[0] == 'discr' and is_call(c[1], r'std::io::Read::read$'))
+            stores = [(cstr(p), v) for p, v in r.stores()]
+            if okv not in (0,):
+                # the read failed: the error leaves the function, nothing is stored (R18.2 checks the edge itself)
+                if stores:
+                    why['other'] = 'fill stores %s on the error path' % [s for s, _ in stores]
                 continue
-            # e = True: condition is `n == 0`; False: `n != 0` / `n > 0`
-            zero_edges += [(blk, x) for x in (sc[2] if e else sc[3])]
-            nonzero_edges += [(blk, x) for x in (sc[3] if e else sc[2])]
-    if flags and reads and nonzero_edges:
-        FL = flags[0]
-        defs = var_defs_terms(f, FL[2])
-        hdr = list(f.loops())
-        zero_in_loop = any(bi in f.loops().get(hdr[0], set()) for bi, si, t0 in defs if t0 == ('c', 0)) if hdr else True
-        one_store = [bi for bi, si, t0 in defs if t0 == ('c', 1)]
-        vals = sorted(tstr(t0) for bi, si, t0 in defs)
-        ok_false_only_first = vals == ['0', '1'] and not zero_in_loop and len(one_store) == 1 and all(must_pass(f, [reads[0][0]], one_store, src=tg) for _, tg in nonzero_edges)
-    okshape = len(okrets) >= 2 and all(is_var(t0[3]['0']) or t0[3]['0'] == ('c', 1) for t0 in okrets)
-    cx.report('R07.1', f, 'fill/result', okshape and ok_false_only_first, 'returns Ok(flag)/Ok(true); the flag is false only while no byte has been read' if okshape and ok_false_only_first else 'fill result protocol deviates (returns %s)' % [tstr(t0, 60) for _, t0 in rets])
-    okz = bool(zero_edges) and all(reads[0][0] not in f.reach(tg) for _, tg in zero_edges)
-    cx.report('R07.1', f, 'fill/eof', okz, 'a zero-length read ends fill without another read' if okz else 'a zero-length read does not end fill')
+            z = None
+            for c, v in r.conds:
+                cc = canon(c)
+                if cc[0] == 'op' and cc[1] in ('Eq', 'Ne', 'Lt', 'Le') and N in (cstr(cc[2]), cstr(cc[3])):
+                    try:
+                        z0 = teval(cc, by_cstr({N: 0}))
+                        z1 = teval(cc, by_cstr({N: 1}))
+                    except (Unsupported, EvalPanic):
+                        continue
+                    if z0 != z1:
+                        z = (bool(z0) == v)     # True: this path is the n == 0 case
+            if z is None:
+                why['eof'] = 'a path does not distinguish a zero-length read'
+                continue
+            if z:
+                nz += 1
+                if r.end != 'return':
+                    why['eof'] = 'a zero-length read does not end fill'
+                elif stores:
+                    why['other'] = 'fill stores %s after a zero-length read' % [s for s, _ in stores]
+                elif not (is_agg(r.ret, r'Result$', 'Ok') and cstr(r.ret[3]['0']) in FL):
+                    why['result'] = 'after a zero-length read fill returns %s (expected Ok(whether any byte was read during this call))' % tstr(canon(r.ret), 80)
+            else:
+                ends = [v for s, v in stores if s == 'self.end']
+                oth = [s for s, v in stores if s != 'self.end']
+                try:
+                    if len(ends) != 1 or teval(ends[0], by_cstr({'self.end': 10, N: 3})) != 13:
+                        why['end'] = 'end is not advanced by exactly the reader\'s return value'
+                except (Unsupported, EvalPanic):
+                    why['end'] = 'the update of end cannot be evaluated'
+                if oth:
+                    why['other'] = 'fill writes %s' % oth
+                if r.end == 'return':
+                    if not (is_agg(r.ret, r'Result$', 'Ok') and r.ret[3]['0'] == ('c', 1)):
+                        why['result'] = 'with bytes read fill returns %s (expected Ok(true))' % tstr(canon(r.ret), 80)
+                elif r.end == ('stop', h):
+                    if not flags or any(r.env.get(l) != ('c', 1) for l in flags):
+                        why['result'] = 'the any-byte-read flag is not set after a successful read'
+        if nz == 0:
+            why['eof'] = why['eof'] or 'no path handles a zero-length read'
+        if not flags:
+            why['result'] = why['result'] or 'no boolean carried across reads starts as false (the any-byte-read flag)'
+    cx.report('R07.1', f, 'fill/read', why['read'] is None, 'reads into buf[end..] only' if why['read'] is None else why['read'])
+    cx.report('R07.1', f, 'fill/end', why['end'] is None, 'the only store to end adds exactly the reader\'s return value' if why['end'] is None else why['end'])
+    cx.report('R07.1', f, 'fill/other-stores', why['other'] is None, 'fill writes no other field' if why['other'] is None else why['other'])
+    cx.report('R07.1', f, 'fill/result', why['result'] is None, 'returns Ok(flag)/Ok(true); the flag is false only while no byte has been read' if why['result'] is None else why['result'])
+    cx.report('R07.1', f, 'fill/eof', why['eof'] is None, 'a zero-length read ends fill without another read' if why['eof'] is None else why['eof'])
     # roll
-    r = cx.body('util::buffer::Buffer::roll')
-    cw = r.calls(r'core::slice::copy_within$')
-    okc = False
-    if len(cw) == 1:
-        ct = expand_vars(r, r.call_term(*cw[0]))
-        rg = ct[2][1]
-
-        def end_minus_min(x):
-            x = peel_all(x)
-            if is_call(x, r'core::option::Option::(expect|unwrap)$'):
-                x = x[2][0]
-            return (is_call(x, r'core::num::(checked_sub|wrapping_sub|saturating_sub)$') and sf(x[2][0], 'end') and sf(x[2][1], 'min')) or (x[0] == 'op' and x[1] == 'Sub' and sf(x[2], 'end') and sf(x[3], 'min'))
-        if is_agg(rg, r'core::ops::Range$') and sf(peel(ct[2][0]), 'buf') and ct[2][2] == ('c', 0):
-            s, e = rg[3]['start'], rg[3]['end']
-            oks = end_minus_min(s)
-            oke2 = (e[0] == 'op' and e[1] == 'Add' and ((e[2] == s and sf(e[3], 'min')) or (e[3] == s and sf(e[2], 'min')))) or sf(e, 'end')
-            okc = oks and oke2
-    cx.report('R07.1', r, 'roll/copy', okc, 'roll copies buf[end-min .. end) to offset 0' if okc else 'roll copies a different window')
-    ends = [(bi, val) for bi, si, tt, val, st in r.field_stores() if sf(tt, 'end')]
-    oke = len(ends) == 1 and sf(ends[0][1], 'min') and bool(cw) and r.dominates(cw[0][0], ends[0][0])
-    cx.report('R07.1', r, 'roll/end', oke, 'roll sets end = min after the copy' if oke else 'roll sets end to %s' % [tstr(v) for _, v in ends])
-    other = [tt for bi, si, tt, val, st in r.field_stores() if not sf(tt, 'end')]
-    cx.report('R07.1', r, 'roll/other-stores', not other, 'roll writes no other field' if not other else 'roll writes %s' % [tstr(x) for x in other])
+    r_ = cx.body('util::buffer::Buffer::roll')
+    rrows = summarize(cx.facts, r_)
+    okrows = [x for x in rrows if x.end == 'return']
+    whyc = whye = whyo = None
+    if not okrows:
+        whyc = 'roll never returns'
+    for x in okrows:
+        cw = [canon(c) for c in x.calls(r'core::slice::copy_within$')]
+        at = by_cstr({'self.end': 20, 'self.min': 6})
+        try:
+            if len(cw) != 1 or cstr(cw[0][2][0]) != 'self.buf' or not is_agg(cw[0][2][1], r'core::ops::Range$') or teval(cw[0][2][1][3]['start'], at) != 14 or teval(cw[0][2][1][3]['end'], at) != 20 or teval(cw[0][2][2], at) != 0:
+                whyc = 'roll copies a different window than buf[end-min .. end) to offset 0'
+            st = [(cstr(p), v) for p, v in x.stores()]
+            es = [v for s, v in st if s == 'self.end']
+            if len(es) != 1 or teval(es[0], at) != 6 or _has_upd(es[0]):
+                whye = 'roll does not set end = min'
+            elif cw and [e for e in x.effects if e[0] in ('call', 'store')].index(('store', *[e for e in x.effects if e[0] == 'store' and cstr(e[1]) == 'self.end'][0][1:])) < [i for i, e in enumerate([e for e in x.effects if e[0] in ('call', 'store')]) if e[0] == 'call' and short(e[1][1]).endswith('copy_within')][0]:
+                whye = 'end is reset before the copy'
+            if [s for s, v in st if s != 'self.end']:
+                whyo = 'roll writes %s' % [s for s, v in st if s != 'self.end']
+        except (Unsupported, EvalPanic) as e:
+            whyc = 'cannot evaluate: %s' % e
+    cx.report('R07.1', r_, 'roll/copy', whyc is None, 'roll copies buf[end-min .. end) to offset 0' if whyc is None else whyc)
+    cx.report('R07.1', r_, 'roll/end', whye is None, 'roll sets end = min after the copy' if whye is None else whye)
+    cx.report('R07.1', r_, 'roll/other-stores', whyo is None, 'roll writes no other field' if whyo is None else whyo)
     # who may write Buffer fields
     for p, ob in cx.facts.bodies.items():
         if p.startswith('util::buffer::Buffer::'):
@@ -524,7 +555,9 @@ def r07_2(cx):
             aut = peel(f['aut'])
             okb = is_call(f['buf'], r'Buffer::new$') and is_call(f['buf'][2][0], r'Automaton::max_pattern_len$') and peel(f['buf'][2][0][2][0]) == aut
             cx.report('R07.2', b, 'buffer-size', okb, 'roll buffer is sized from aut.max_pattern_len()' if okb else 'buffer sized from %s' % tstr(f['buf'], 120), line_of(b, bi, si))
-            st_ok = f['start'][0] == 'try' and is_call(f['start'][1], r'Automaton::start_state$') and peel(f['start'][1][2][0]) == aut and is_agg(f['start'][1][2][1], r'Anchored$', 'No') and f['sid'] == f['start']
+            from acverif.rl import unwrapped
+            ss = unwrapped(b, f['start'])
+            st_ok = is_call(ss, r'Automaton::start_state$') and peel(ss[2][0]) == aut and is_agg(ss[2][1], r'Anchored$', 'No') and unwrapped(b, f['sid']) == ss
             cx.report('R07.2', b, 'start', st_ok, 'start = sid = aut.start_state(Anchored::No)?' if st_ok else 'start/sid = %s / %s' % (tstr(f['start'], 80), tstr(f['sid'], 80)), line_of(b, bi, si))
             z = all(f[k] == ('c', 0) for k in ('absolute_pos', 'buffer_pos', 'buffer_reported_pos'))
             cx.report('R07.2', b, 'positions', z, 'all positions start at 0' if z else 'positions do not start at 0', line_of(b, bi, si))
